@@ -4,6 +4,8 @@ package main
 
 import (
 	"fmt"
+	"go/constant"
+	"go/token"
 	"go/types"
 	"strings"
 
@@ -188,7 +190,9 @@ func (fr *frame) invoke(c *ssa.CallCommon, recv Val, args []Val, resT types.Type
 	vc := fr.vc
 	m := c.Method
 	it := c.Value.Type()
-	fr.mustHold(not(eq(app("itag", recv.S), "0")), "nil interface method call ."+m.Name())
+	if !vc.P.noNilCheckPkgs[vc.P.pkgPathOf(fr.fn)] {
+		fr.mustHold(not(eq(app("itag", recv.S), "0")), "nil interface method call ."+m.Name())
+	}
 	name := fmt.Sprintf("(%s).%s", typeKey(it), m.Name())
 	if con := vc.P.contracts[name]; con != nil {
 		return fr.applyContract(con, nil, m.Type().(*types.Signature), args, resT, pos)
@@ -463,6 +467,11 @@ func (env *SpecEnv) regions(con *Contract) []region {
 // with the old one outside the regions (for references allocated before).
 func (fr *frame) havocModifies(con *Contract, env *SpecEnv, old Mem) {
 	vc := fr.vc
+	if len(con.clauses("modifies")) == 0 && len(con.clauses("may_reject")) > 0 {
+		// translator functions: unless stated otherwise they may modify every mutable component
+		vc.havocAll(&fr.mem, vc.P.keepGhostOnUnknown)
+		return
+	}
 	regs := env.regions(con)
 	byComp := map[string][]region{}
 	allocates := len(con.clauses("allocates")) > 0
@@ -550,6 +559,9 @@ func (fr *frame) builtin(b *ssa.Builtin, c *ssa.CallCommon, resT types.Type, pos
 			_, _, card := vc.mapComps(u)
 			return Val{T: resT, S: ite(eq(a.S, "0"), bvLit(64, 0), app("select", vc.get(fr.mem, card), a.S))}
 		case *types.Basic:
+			if c, ok := c.Args[0].(*ssa.Const); ok && c.Value != nil && c.Value.Kind() == constant.String {
+				return Val{T: resT, S: bvLit(64, uint64(len(constant.StringVal(c.Value))))}
+			}
 			l := vc.declareFun("strlen", []string{sStr}, sBV64)
 			t := app(l, a.S)
 			vc.assume(app("bvult", t, "#x0001000000000000"))
@@ -564,7 +576,7 @@ func (fr *frame) builtin(b *ssa.Builtin, c *ssa.CallCommon, resT types.Type, pos
 		d, s := arg(0), arg(1)
 		if vc.sortOf(s.T) == sStr {
 			vc.note("copy from string treated as unknown write in " + fr.fn.String())
-			vc.havocPats(&fr.mem, []string{"M:" + sBV8})
+			vc.havocPats(&fr.mem, []string{"M:uint8"})
 			return fr.freshVal(fr.pfx+"copyn", resT)
 		}
 		et := sliceElem(d.T)
@@ -671,7 +683,37 @@ func (fr *frame) appendBuiltin(c *ssa.CallCommon, resT types.Type, pos string) V
 }
 
 func (fr *frame) goStmt(x *ssa.Go) {
-	fr.vc.note("go statement: spawned call is not executed here (frame obligations only): " + fr.fn.String())
+	fr.vc.note("go statement: spawned call is not executed here (its preconditions are checked): " + fr.fn.String())
+	// preconditions of the spawned function hold at the go statement
+	var callee *ssa.Function
+	var bindings []Val
+	if mc, ok := x.Call.Value.(*ssa.MakeClosure); ok {
+		callee = mc.Fn.(*ssa.Function)
+		for _, b := range mc.Bindings {
+			bindings = append(bindings, fr.val(b))
+		}
+	} else if f := x.Call.StaticCallee(); f != nil {
+		callee = f
+	}
+	if callee != nil {
+		if con := fr.vc.P.contractFor(callee); con != nil {
+			var args []Val
+			for _, a := range x.Call.Args {
+				args = append(args, fr.argVal(fr.val(a)))
+			}
+			env := fr.contractEnv(con, callee, callee.Signature, args)
+			for i, fv := range callee.FreeVars {
+				if i < len(bindings) {
+					env.vars[fv.Name()] = bindings[i]
+				}
+			}
+			env.mem, env.old = fr.mem, fr.mem
+			fr.vc.usedContracts[con.FuncName] = con
+			for _, cl := range con.clauses("requires") {
+				fr.vc.oblige("pre@go", fmt.Sprintf("%s/pre@go[%s: %s#%d]", fr.vc.Name, con.FuncName, clauseLabel(cl), fr.occ("prego:"+con.FuncName+clauseLabel(cl))), fr.guard, env.evalBool(cl.Expr), fr.pos(x.Pos()))
+			}
+		}
+	}
 	fr.vc.goSites = append(fr.vc.goSites, goSite{fr: fr, ins: x, guard: fr.guard, mem: fr.mem.clone()})
 }
 
@@ -735,6 +777,7 @@ func (fr *frame) enterLoop(li *loopInfo, fwdPreds []int) {
 		phiH[phi] = v
 	}
 	li.headMem, li.headG = fr.mem.clone(), gh
+	fr.counterInvariants(li, gh)
 	envH := fr.loopEnv(li, phiH, fr.mem)
 	for _, cl := range invs {
 		vc.assume(implies(gh, envH.evalBool(cl.Expr)))
@@ -814,13 +857,13 @@ func (vc *VC) modsOfBlocks(blocks []*ssa.BasicBlock, pats map[string]bool, seen 
 				if a, ok := x.(*ssa.Alloc); ok {
 					t := a.Type().(*types.Pointer).Elem()
 					if isArray(t) {
-						pats["M:"+vc.sortOf(leafType(t))] = true
+						pats[vc.elemCompName(t)] = true
 					} else {
 						vc.modsOfType(t, pats)
 					}
 				}
 				if ms, ok := x.(*ssa.MakeSlice); ok {
-					pats["M:"+vc.sortOf(leafType(sliceElem(ms.Type())))] = true
+					pats[vc.elemCompName(sliceElem(ms.Type()))] = true
 				}
 			case *ssa.MakeMap:
 				pats["brk"], pats["Kd:*"], pats["Kc:*"] = true, true, true
@@ -854,16 +897,16 @@ func (vc *VC) modsOfAddr(a ssa.Value, pats map[string]bool) {
 			break
 		}
 		if ia, ok := base.(*ssa.IndexAddr); ok {
-			pats["M:"+vc.sortOf(leafType(sliceElem(ia.X.Type())))] = true
+			pats[vc.elemCompName(sliceElem(ia.X.Type()))] = true
 			return
 		}
 		pats["F:"+structName(st)+".*"] = true
 	case *ssa.IndexAddr:
-		pats["M:"+vc.sortOf(leafType(sliceElem(p.X.Type())))] = true
+		pats[vc.elemCompName(sliceElem(p.X.Type()))] = true
 	default:
 		t := a.Type().Underlying().(*types.Pointer).Elem()
 		if isArray(t) {
-			pats["M:"+vc.sortOf(leafType(t))] = true
+			pats[vc.elemCompName(t)] = true
 		} else {
 			vc.modsOfType(t, pats)
 		}
@@ -874,9 +917,9 @@ func (vc *VC) modsOfCall(c *ssa.CallCommon, pats map[string]bool, seen map[*ssa.
 	if b, ok := c.Value.(*ssa.Builtin); ok {
 		switch b.Name() {
 		case "copy":
-			pats["M:"+vc.sortOf(leafType(sliceElem(c.Args[0].Type())))] = true
+			pats[vc.elemCompName(sliceElem(c.Args[0].Type()))] = true
 		case "append":
-			pats["M:"+vc.sortOf(leafType(sliceElem(c.Args[0].Type())))] = true
+			pats[vc.elemCompName(sliceElem(c.Args[0].Type()))] = true
 			pats["brk"] = true
 		case "delete", "clear":
 			pats["Kd:*"], pats["Kc:*"] = true, true
@@ -1045,4 +1088,104 @@ func (fr *frame) recoverBuiltin(resT types.Type) Val {
 	v := fr.freshVal(fr.pfx+"recovered", resT)
 	vc.assume(not(eq(app("itag", v.S), "0")))
 	return v
+}
+
+// counterInvariants: a loop counter that starts at a constant and is only ever
+// incremented by a positive constant stays >= its initial value (idealisation:
+// it does not wrap, which would need 2^63 iterations).
+func (fr *frame) counterInvariants(li *loopInfo, gh string) {
+	vc := fr.vc
+	for _, phi := range li.phis {
+		w, signed, ok := intInfo(phi.Type())
+		if !ok {
+			continue
+		}
+		var init *ssa.Const
+		good := true
+		for k, e := range phi.Edges {
+			pred := phi.Block().Preds[k]
+			if li.blocks[pred.Index] && pred != nil && phi.Block().Dominates(pred) {
+				// back edge: phi + positive constant
+				b, isBin := e.(*ssa.BinOp)
+				if !isBin || b.Op != token.ADD || b.X != phi {
+					good = false
+					break
+				}
+				c, isC := b.Y.(*ssa.Const)
+				if !isC || c.Value == nil {
+					good = false
+					break
+				}
+				if v, exact := constant.Int64Val(constant.ToInt(c.Value)); !exact || v <= 0 || v > 1<<20 {
+					good = false
+					break
+				}
+			} else {
+				c, isC := e.(*ssa.Const)
+				if !isC || c.Value == nil || (init != nil && init.Value.ExactString() != c.Value.ExactString()) {
+					good = false
+					break
+				}
+				init = c
+			}
+		}
+		if !good || init == nil {
+			continue
+		}
+		iv := vc.constVal(init)
+		ge := "bvuge"
+		if signed {
+			ge = "bvsge"
+		}
+		_ = w
+		vc.assume(implies(gh, app(ge, fr.vals[phi].S, iv.S)))
+		fr.rangeIndexBound(li, phi, gh, signed)
+		vc.note("idealisation: loop counters incremented by a positive constant do not wrap")
+	}
+}
+
+// rangeIndexBound: header "if phi+c < bound" with bound defined outside the
+// loop and the body only reachable through the true branch: then after every
+// back edge phi < bound (phi holds a value that passed the test).
+func (fr *frame) rangeIndexBound(li *loopInfo, phi *ssa.Phi, gh string, signed bool) {
+	h := li.head
+	ifi, ok := h.Instrs[len(h.Instrs)-1].(*ssa.If)
+	if !ok {
+		return
+	}
+	cmp, ok := ifi.Cond.(*ssa.BinOp)
+	if !ok || cmp.Op != token.LSS {
+		return
+	}
+	add, ok := cmp.X.(*ssa.BinOp)
+	if !ok || add.Op != token.ADD || add.X != phi || add.Block() != h {
+		return
+	}
+	// bound must be defined outside the loop
+	if bi, isInstr := cmp.Y.(ssa.Instruction); isInstr && li.blocks[bi.Block().Index] {
+		return
+	}
+	// every back edge carries exactly add, from blocks dominated by the true successor
+	for k, e := range phi.Edges {
+		pred := h.Preds[k]
+		if li.blocks[pred.Index] && h.Dominates(pred) {
+			if e != add || !(h.Succs[0] == pred || h.Succs[0].Dominates(pred)) {
+				return
+			}
+		}
+	}
+	var initK int
+	for k := range phi.Edges {
+		pred := h.Preds[k]
+		if !(li.blocks[pred.Index] && h.Dominates(pred)) {
+			initK = k
+		}
+	}
+	init := fr.val(phi.Edges[initK])
+	bound := fr.val(cmp.Y)
+	lt := "bvult"
+	if signed {
+		lt = "bvslt"
+	}
+	fr.vc.assume(implies(gh, or(eq(fr.vals[phi].S, init.S), app(lt, fr.vals[phi].S, bound.S))))
 }
